@@ -381,6 +381,8 @@ func (op vf08Op) String() string {
 		return fmt.Sprintf("Put(lock->X%d exp=%d) order=%s", op.obj, op.lockExp, vf08Perm(op.perm))
 	case "tomb":
 		return fmt.Sprintf("Put(tombstone->X%d) order=%s", op.obj, vf08Perm(op.perm))
+	case "tomblock":
+		return fmt.Sprintf("Put(tombstone->latest lock of X%d) order=%s", op.obj, vf08Perm(op.perm))
 	case "mode":
 		return fmt.Sprintf("SetShardMode(s%d,%s)", op.shard, vf08ModeName(op.m))
 	case "putfail":
@@ -449,8 +451,10 @@ func vf08GenCase(r *verifkit.Run, idx int, nOps int) vf08Case {
 		case x < 26:
 			op.kind = "lock"
 			op.lockExp = epoch + uint64(rng.IntN(5))
-		case x < 46:
+		case x < 42:
 			op.kind = "tomb"
+		case x < 46:
+			op.kind = "tomblock" // tombstone aimed at the latest accepted lock object of the target
 		case x < 62:
 			op.kind = "mode"
 			op.m = []mode.Mode{mode.ReadWrite, mode.ReadWrite, mode.ReadOnly, mode.DegradedReadOnly}[rng.IntN(4)]
@@ -541,6 +545,23 @@ func vf08RunAttempt(r *verifkit.Run, c vf08Case) (res vf08Result) {
 			desc = fmt.Sprintf("%v=%s", op, vf08Err(err))
 			trigger = "put"
 			res.count("op_put", 1)
+		case "tomblock":
+			if len(o.locks) == 0 {
+				desc = "noop (no accepted lock)"
+				trigger = "noop"
+				break
+			}
+			tl := verifkit.NewObject(r.Rand("tomblock", c.idx*1000+step), v.cnr, v.owner, 0)
+			verifkit.SetExpiration(tl, 1000)
+			tl.AssociateDeleted(o.locks[len(o.locks)-1].addr.Object())
+			err := v.e.Put(ctx, tl, nil)
+			desc = fmt.Sprintf("%v=%s", op, vf08Err(err))
+			trigger = "tombstone-for-lock-object"
+			if err == nil {
+				res.count("op_tombstone_for_lock_accepted", 1)
+			} else {
+				res.count("op_tombstone_for_lock_rejected", 1)
+			}
 		case "lock", "tomb":
 			b := aux[step]
 			was, _ := v.retrievable(o)
@@ -599,6 +620,14 @@ func vf08RunAttempt(r *verifkit.Run, c vf08Case) (res vf08Result) {
 				if err == nil {
 					res.count("op_tombstone_accepted", 1)
 					trigger = "tombstone-accepted"
+					if wasProtected {
+						_, lockOn, _ := v.lockPlacement(o)
+						for i := range lockOn {
+							if modesBefore[i] == mode.ReadWrite && !v.ctl.putFail[i] {
+								trigger = "tombstone-accepted-although-a-lock-shard-was-writable"
+							}
+						}
+					}
 				} else {
 					res.count("op_tombstone_rejected", 1)
 					trigger = "tombstone-rejected"
